@@ -26,7 +26,6 @@ def check(chk):
     r63(chk, m)
     r64_r66(chk, m)
     r65(chk, m)
-    r67(chk, m)
     chk.decline('agreement of the derived views with a list model for every history (runtime); decided are the structural '
                 'preconditions: one owner of the child list, both links set by the adders, identity-based location')
 
@@ -41,6 +40,24 @@ def r61(chk, m):
                  '_dom_childNodes is bound only by the childNodes getter', 5)
     n_owner_sites = 0
     positive = False
+    # a private helper acts for the functions that call it
+    from .c04 import resolved_calls
+    callers = {}
+    for f in E.all_functions(m):
+        if 'simpletal' in f.fullname:
+            continue
+        for c, cal in resolved_calls(m, f):
+            callers.setdefault(cal.fullname, set()).add(f)
+
+    def owners_of(fn, seen=()):
+        if not (fn.name.startswith('_') and not fn.name.startswith('__')) or not callers.get(fn.fullname) or fn.fullname in seen:
+            return [fn.fullname]
+        out = []
+        for c in sorted(callers[fn.fullname], key=lambda x: x.fullname):
+            for o in owners_of(c, seen + (fn.fullname,)):
+                if o not in out:
+                    out.append(o)
+        return out
     for fn in E.all_functions(m):
         if 'simpletal' in fn.fullname:
             continue
@@ -74,7 +91,8 @@ def r61(chk, m):
             chk.analysed(fn)
             chk.call_sites += 1
             rebind = what.startswith('rebinds')
-            allowed = fn.fullname in OWNERS and (not rebind or fn.fullname == 'plasTeX.DOM.Node.childNodes')
+            owners = owners_of(fn)
+            allowed = all(o in OWNERS for o in owners) and (not rebind or owners == ['plasTeX.DOM.Node.childNodes'])
             if allowed:
                 n_owner_sites += 1
             chk.verdict(R, '%s :: %s' % (fn.fullname, what), allowed,
@@ -93,233 +111,287 @@ def r61(chk, m):
     need(hits == 2, 'positive fixture for the ownership scanner did not match')
 
 
+def edit_cases(m):
+    """(method, label, builder) - builder returns (env, parent key, expected child labels, expected outcome kind, extra check)."""
+    from . import domheap as D
+
+    def base():
+        d = D.Dom(m)
+        a, b = d.elem('a'), d.elem('b')
+        P = d.elem('P', [a, b])
+        x, y = d.elem('x'), d.elem('y')
+        f1, f2 = d.elem('f1'), d.elem('f2')
+        F = d.frag('F', [f1, f2])
+        return d, dict(P=P, a=a, b=b, x=x, y=y, F=F, f1=f1, f2=f2)
+
+    def twins():
+        d = D.Dom(m)
+        t1, t2 = d.text('t1', 'same'), d.text('t2', 'same')
+        b, c = d.elem('b'), d.elem('c')
+        P = d.elem('P', [t1, b, t2, c])
+        for t in (t1, t2):
+            t.attrs['parentNode'] = P
+        return d, dict(P=P, t1=t1, t2=t2, b=b, c=c, x=d.elem('x'))
+    def base3():
+        d = D.Dom(m)
+        a, b, c = d.elem('a'), d.elem('b'), d.elem('c')
+        P = d.elem('P', [a, b, c])
+        return d, dict(P=P, a=a, b=b, c=c, x=d.elem('x'))
+    C = []
+    add = lambda meth, label, mk, args, want, kind='return', setparent=True: C.append((meth, label, mk, args, want, kind, setparent))
+    add('append', 'a node', base, {'newChild': 'x'}, ['a', 'b', 'x'])
+    add('append', 'a fragment is appended item by item', base, {'newChild': 'F'}, ['a', 'b', 'f1', 'f2'])
+    add('append', 'setParent=False still sets the owner', base, {'newChild': 'x', 'setParent': False}, ['a', 'b', 'x'], setparent=False)
+    add('insert', 'a node', base, {'i': 1, 'newChild': 'x'}, ['a', 'x', 'b'])
+    add('insert', 'a fragment keeps its order', base, {'i': 1, 'newChild': 'F'}, ['a', 'f1', 'f2', 'b'])
+    add('insert', 'a fragment at an index beyond the end', base, {'i': 5, 'newChild': 'F'}, ['a', 'b', 'f1', 'f2'])
+    add('insertBefore', 'before a child', base, {'newChild': 'x', 'refChild': 'b'}, ['a', 'x', 'b'])
+    add('insertBefore', 'moving a child', base, {'newChild': 'b', 'refChild': 'a'}, ['b', 'a'])
+    add('insertBefore', 'reference is not a child', base, {'newChild': 'x', 'refChild': 'y'}, ['a', 'b'], kind='raise NotFoundErr')
+    add('insertBefore', 'reference among equal siblings is found by identity', twins, {'newChild': 'x', 'refChild': 't2'}, ['t1', 'b', 'x', 't2', 'c'])
+    add('insertAfter', 'after the first child', base, {'newChild': 'x', 'refChild': 'a'}, ['a', 'x', 'b'])
+    add('insertAfter', 'after the last child', base, {'newChild': 'x', 'refChild': 'b'}, ['a', 'b', 'x'])
+    add('insertAfter', 'reference among equal siblings is found by identity', twins, {'newChild': 'x', 'refChild': 't2'}, ['t1', 'b', 't2', 'x', 'c'])
+    add('insertAfter', 'moving an earlier child', base3, {'newChild': 'a', 'refChild': 'b'}, ['b', 'a', 'c'])
+    add('insertBefore', 'moving an earlier child', base3, {'newChild': 'a', 'refChild': 'c'}, ['b', 'a', 'c'])
+    add('insertBefore', 'moving a later child', base3, {'newChild': 'c', 'refChild': 'a'}, ['c', 'a', 'b'])
+    add('replaceChild', 'by a node that is already a child', base3, {'newChild': 'a', 'oldChild': 'c'}, ['b', 'a'])
+    add('replaceChild', 'a child', base, {'newChild': 'x', 'oldChild': 'a'}, ['x', 'b'])
+    add('replaceChild', 'old child is not a child', base, {'newChild': 'x', 'oldChild': 'y'}, ['a', 'b'], kind='raise NotFoundErr')
+    add('removeChild', 'a child', base, {'oldChild': 'b'}, ['a'])
+    add('removeChild', 'the second of two equal siblings', twins, {'oldChild': 't2'}, ['t1', 'b', 'c'])
+    add('removeChild', 'not a child', base, {'oldChild': 'x'}, ['a', 'b'], kind='raise NotFoundErr')
+    add('pop', 'by index', base, {'index': 0}, ['b'])
+    add('__setitem__', 'a node', base, {'i': 0, 'node': 'x'}, ['x', 'b'])
+    add('__setitem__', 'a fragment', base, {'i': 0, 'node': 'F'}, ['f1', 'f2', 'b'])
+    add('extend', 'a list of nodes', base, {'other': ['x', 'y']}, ['a', 'b', 'x', 'y'])
+    return C
+
+
 def r62(chk, m):
-    R = chk.rule('R6.2', 'append and insert: on every path that puts the child into the list, ownerDocument is assigned '
-                 'unconditionally and parentNode under exactly the setParent guard; fragments are inserted item by item '
-                 '(insert advances the index)', 6)
-    for name in ('append', 'insert'):
-        fn = m.func(DOM, 'Node.' + name)
+    from . import domheap as D
+    R = chk.rule('R6.2', 'tree edits on a small heap (abstract interpretation of Node.append/insert/insertBefore/insertAfter/'
+                 'replaceChild/removeChild/pop/__setitem__/extend): the child list afterwards is the one of the plain list model, '
+                 'every listed child has this node as parent and its document as owner, no child is listed twice, reference '
+                 'children are located by identity (equal-but-distinct siblings are different children), a missing reference '
+                 'raises NotFoundErr and changes nothing', 20)
+    Node = m.cls(DOM, 'Node')
+    for meth, label, mk, args, want, kind, setparent in edit_cases(m):
+        fn = m.find_method(Node, meth)
+        need(fn is not None, 'Node.%s not found' % meth)
         chk.analysed(fn)
-
-        def transfer(n, v):
-            listed, owner, parent, rec = v
-            if isinstance(n, ast.Call) and re.fullmatch(r'self\.childNodes\.(append|insert)', M.call_name(n)):
-                listed = True
-            if isinstance(n, ast.Call) and M.call_name(n) == 'self.' + name:
-                rec = True
-            if isinstance(n, ast.Assign):
-                for t in n.targets:
-                    if text(t) == 'newChild.ownerDocument':
-                        owner = text(n.value)
-                    if text(t) == 'newChild.parentNode':
-                        parent = True
-            return (listed, owner, parent, rec)
-        normal, raised = flow.function_exits(fn.node, (False, None, False, False), transfer)
-        chk.paths += len(normal)
-        need(normal, 'Node.%s has no normal exit' % name)
-        bad_owner = [v for v in normal if (v[0] or v[3]) and v[1] != 'self.ownerDocument']
-        chk.verdict(R, 'Node.%s sets ownerDocument' % name, not bad_owner,
-                    'Node.%s can return after listing the child without newChild.ownerDocument = self.ownerDocument' % name, chk.where(fn))
-        # parentNode assignments are exactly under `if setParent:`
-        pa = [n for n in M.walk_no_nested(fn.node) if isinstance(n, ast.Assign) and any(text(t) == 'newChild.parentNode' for t in n.targets)]
-        guards = [guard_chain(fn.node, n) for n in pa]
-        vals = sorted(text(n.value) for n in pa)
-        ok = bool(pa) and all(g and g[0] == 'setParent' for g in guards) and vals == ['self', 'self.parentNode']
-        frag_guard = all(len(g) == 2 and 'DOCUMENT_FRAGMENT_NODE' in g[1] for g in guards)
-        chk.verdict(R, 'Node.%s sets parentNode under setParent' % name, ok and frag_guard,
-                    'Node.%s assigns newChild.parentNode = %s under guards %s; expected self / self.parentNode (for fragments) '
-                    'under `if setParent`' % (name, vals, guards), chk.where(fn))
-        # fragment arm recurses per item with the same setParent
-        rec = [c for c in M.calls_in(fn.node) if M.call_name(c) == 'self.' + name]
-        ok = bool(rec) and all(any(k.arg == 'setParent' and text(k.value) == 'setParent' for k in c.keywords) for c in rec)
-        if name == 'insert':
-            loops = [n for n in M.walk_no_nested(fn.node) if isinstance(n, ast.For)]
-            adv = any(isinstance(x, ast.AugAssign) and text(x.target) == 'i' and isinstance(x.op, ast.Add) and text(x.value) == '1'
-                      for l in loops for x in ast.walk(l))
-            ok = ok and adv
-        chk.verdict(R, 'Node.%s inserts fragments item by item' % name, ok,
-                    'the fragment arm of Node.%s must call self.%s(item, setParent=setParent) per item%s'
-                    % (name, name, ' and advance the index' if name == 'insert' else ''), chk.where(fn))
-
-
-def guard_chain(root, node):
-    """Tests of the enclosing if statements, outermost first ('not' prefix for else arms)."""
-    chain = []
-
-    def visit(stmts, acc):
-        for st in stmts:
-            if st is node:
-                chain.extend(acc)
-                return True
-            if isinstance(st, ast.If):
-                if visit(st.body, acc + [text(st.test)]) or visit(st.orelse, acc + ['not ' + text(st.test)]):
-                    return True
-            elif isinstance(st, (ast.For, ast.While, ast.With)):
-                if visit(st.body, acc) or visit(getattr(st, 'orelse', []), acc):
-                    return True
-            elif isinstance(st, ast.Try):
-                if visit(st.body, acc) or any(visit(h.body, acc) for h in st.handlers) or visit(st.orelse, acc) or visit(st.finalbody, acc):
-                    return True
-        return False
-    visit(root.body, [])
-    return chain
+        d, nodes = mk()
+        env = {'self': nodes['P'], '__P': nodes['P']}
+        for k, v in args.items():
+            env[k] = nodes[v] if isinstance(v, str) and v in nodes else ([nodes[x] for x in v] if isinstance(v, list) else v)
+        for prm in fn.node.args.args[1:]:
+            if prm.arg not in env:
+                dflt = fn.node.args.defaults[len(fn.node.args.defaults) - (len(fn.node.args.args) - fn.node.args.args.index(prm)):]
+                env[prm.arg] = m.eval_const(fn, dflt[0]) if dflt else None
+        try:
+            outs = D.run(m, fn, env)
+        except D.Imprecise as e:
+            chk.undecided(R, 'Node.%s: %s' % (meth, label), 'the interpretation lost effects on heap objects: %s' % e, chk.where(fn))
+            continue
+        chk.paths += len(outs)
+        got = set()
+        for k2, s2, v in outs:
+            P = s2.env['__P']
+            lst = D.children(P)
+            labs = tuple(D.label_of(c) for c in lst) if lst is not None else ('?',)
+            probs = tuple(D.link_problems(P, expect_parent=True))
+            if not setparent:
+                probs = tuple(p for p in probs if 'parentNode' not in p)
+            got.add((k2 if k2 != 'raise' else 'raise %s' % v, labs, probs))
+        w = (kind, tuple(want), ())
+        chk.decide(R, 'Node.%s: %s' % (meth, label), {repr(g) for g in got}, {repr(w)},
+                   'Node.%s(%s) on the children [a, b] (or [t1, b, t2, c] with t1 == t2) gives (outcome, children, link problems) = %s; '
+                   'expected %s' % (meth, ', '.join('%s=%s' % kv for kv in args.items()), sorted(got, key=repr), w), chk.where(fn))
 
 
 def r63(chk, m):
-    R = chk.rule('R6.3', 'every other adder reaches the child list only through append/insert/pop; the relative inserts first '
-                 'detach newChild, then locate refChild by identity and raise NotFoundErr when absent', 12)
-    Node = m.cls(DOM, 'Node')
-    for name in ('insertBefore', 'insertAfter', 'replaceChild', '__setitem__', 'extend', 'appendText', 'cloneNode', '__add__', '__radd__', 'removeChild'):
-        fn = m.find_method(Node, name)
-        need(fn is not None, 'Node.%s not found' % name)
-        chk.analysed(fn)
-        calls = [M.call_name(c) for c in M.calls_in(fn.node)]
-        routes = [c for c in calls if re.fullmatch(r'(self|obj|node)\.(append|appendChild|insert|pop)', c)]
-        chk.verdict(R, 'Node.%s routes through append/insert/pop' % name, bool(routes),
-                    'Node.%s does not call append/insert/pop (calls: %s)' % (name, sorted(set(calls))), chk.where(fn), str(sorted(set(routes))))
-    for name, offset in (('insertBefore', 'i'), ('insertAfter', 'i + 1'), ('replaceChild', 'i')):
-        fn = m.find_method(Node, name)
-        # order of events along the body: removeChild(newChild) in try/except NotFoundErr, then a search loop
-        body = fn.node.body
-        stmts = [s for s in body if not (isinstance(s, ast.Expr) and isinstance(s.value, ast.Constant))]
-        ok_detach = isinstance(stmts[0], ast.Try) and 'self.removeChild(newChild)' in text(stmts[0].body[0]) and \
-            all(h.type is not None and 'NotFoundErr' in text(h.type) for h in stmts[0].handlers)
-        loops = [s for s in stmts if isinstance(s, ast.For)]
-        ok_loop = False
-        detail = ''
-        if len(loops) == 1 and stmts.index(loops[0]) > 0:
-            l = loops[0]
-            tests = [n for n in ast.walk(l) if isinstance(n, ast.Compare)]
-            ident = [t for t in tests if isinstance(t.ops[0], ast.Is)]
-            ins = [c for c in ast.walk(l) if isinstance(c, ast.Call) and M.call_name(c) == 'self.insert']
-            ok_loop = len(tests) == 1 and len(ident) == 1 and len(ins) == 1 and text(ins[0].args[0]) == offset and text(ins[0].args[1]) == 'newChild'
-            if name == 'replaceChild':
-                pops = [c for c in ast.walk(l) if isinstance(c, ast.Call) and M.call_name(c) == 'self.pop']
-                ok_loop = ok_loop and len(pops) == 1 and text(pops[0].args[0]) == 'i' and pops[0].lineno < ins[0].lineno
-            detail = 'test %s, insert at %s' % ([text(t) for t in tests], [text(c.args[0]) for c in ins])
-        ends_raise = isinstance(stmts[-1], ast.Raise) and 'NotFoundErr' in text(stmts[-1].exc)
-        chk.verdict(R, 'Node.%s: detach, locate by identity, insert at %s' % (name, offset), ok_detach and ok_loop and ends_raise,
-                    'Node.%s must (1) detach newChild inside try/except NotFoundErr BEFORE searching, (2) find the reference child '
-                    'with `is`, (3) insert at index %s, (4) raise NotFoundErr otherwise; found detach-first=%s, %s, raises=%s'
-                    % (name, offset, ok_detach, detail, ends_raise), chk.where(fn))
-    fn = m.find_method(Node, 'removeChild')
-    tests = [n for n in ast.walk(fn.node) if isinstance(n, ast.Compare)]
-    chk.verdict(R, 'Node.removeChild locates by identity', len(tests) == 1 and isinstance(tests[0].ops[0], ast.Is),
-                'removeChild compares with %s: equal-but-distinct nodes (two identical text nodes) would be confused'
-                % [text(t) for t in tests], chk.where(fn))
-
-
-def r64_r66(chk, m):
-    R = chk.rule('R6.4', 'deep cloneNode appends clones of the children; normalize disposes of every saved child exactly once '
-                 'and flushes the text buffer after the loop; the child list is emptied in place', 4)
-    Node = m.cls(DOM, 'Node')
-    fn = m.find_method(Node, 'cloneNode')
-    chk.analysed(fn)
-    deep_if = [n for n in M.walk_no_nested(fn.node) if isinstance(n, ast.If) and text(n.test) == 'deep']
-    need(len(deep_if) == 1, 'Node.cloneNode: `if deep:` not found')
-    deep = deep_if[0]
-    apps = [c for s in deep.body for c in ast.walk(s) if isinstance(c, ast.Call) and M.call_name(c) == 'node.append']
-    ok = bool(apps) and all(re.fullmatch(r'\w+\.cloneNode\((deep|True|deep=True|deep=deep)\)', text(c.args[0])) for c in apps)
-    chk.verdict(R, 'cloneNode(deep) appends clones', ok,
-                'the deep arm appends %s: children must be cloned, not shared' % [text(c.args[0]) for c in apps], chk.where(fn))
-    R6 = chk.rule('R6.6', 'deep clones do not share attribute nodes: no attribute value of the original is stored in the '
-                  "clone's map without passing through a clone operation", 1)
-    shared = []
-    cloned = False
-    for s in deep.body:
-        for c in ast.walk(s):
-            if isinstance(c, ast.Call) and M.call_name(c) == 'node.attributes.update':
-                shared.append(text(c))
-            if isinstance(c, ast.Assign) and any(text(t).startswith('node.attributes[') for t in c.targets):
-                if re.search(r'[cC]lone', text(c.value)):
-                    cloned = True
-                else:
-                    shared.append(text(c))
-    chk.verdict(R6, 'cloneNode(deep) clones node-valued attributes', cloned and not shared,
-                "the deep arm hands the original's attribute values to the clone (%s): NamedNodeMap.__setitem__ re-parents a stored "
-                'node, so the originals lose their parent link and both elements share the same objects' % (shared or 'no cloning found'),
-                chk.where(fn))
-    helper = m.find_method(Node, '_cloneAttributeValue')
-    if helper is not None:
-        chk.analysed(helper)
-        src = text(helper.node)
-        ok = 'cloneNode(True)' in src and 'isinstance(value, list)' in src and 'isinstance(value, dict)' in src
-        chk.verdict(R6, '_cloneAttributeValue covers nodes, lists and dictionaries', ok,
-                    'the attribute clone helper must clone nodes and rebuild lists and dictionaries of nodes', chk.where(helper))
-    # normalize
-    fn = m.find_method(Node, 'normalize')
-    chk.analysed(fn)
-    loops = [n for n in fn.node.body if isinstance(n, ast.For)]
-    need(loops, 'Node.normalize: child loop not found')
-    loop = loops[-1]
-
-    def transfer(n, v):
-        buf, app = v
-        if isinstance(n, ast.Call) and M.call_name(n) in ('text.append',):
-            buf += 1
-        if isinstance(n, ast.Call) and M.call_name(n) in ('self.appendChild', 'self.append') and n.args and text(n.args[0]) == text(loop.target):
-            app += 1
-        return (buf, app)
-    r = flow.run(loop.body, {(0, 0)}, transfer)
-    disp = r['fall'] | r['continue']
-    chk.verdict(R, 'normalize disposes of each child once', disp == {(1, 0), (0, 1)} and not r['break'] and not r['return'],
-                'per child, (buffered as text, appended) must be (1,0) or (0,1); found %s' % sorted(disp), chk.where(fn, loop))
-    # flush before appending a non-text child and after the loop
-    body_calls = [(c.lineno, M.call_name(c)) for c in M.calls_in(loop)]
-    flush_before = any(nm == 'self.appendText' for l, nm in body_calls) and \
-        min(l for l, nm in body_calls if nm == 'self.appendText') < min(l for l, nm in body_calls if nm in ('self.appendChild', 'self.append'))
-    idx = fn.node.body.index(loop)
-    after = [text(s) for s in fn.node.body[idx + 1:]]
-    chk.verdict(R, 'normalize flushes text before each element and after the loop',
-                flush_before and any(a.startswith('self.appendText(text') for a in after),
-                'normalize must flush the text buffer before appending a non-text child and once after the loop (after: %s)' % after, chk.where(fn))
-    # emptied in place (ownership of the list shared with attributes['self'])
-    rebinds = [n for n in M.walk_no_nested(fn.node) if isinstance(n, ast.Assign) and any(isinstance(t, ast.Attribute) and t.attr in ('_dom_childNodes', 'childNodes') for t in n.targets)]
-    pops = [c for c in M.calls_in(fn.node) if M.call_name(c) in ('self.childNodes.pop', 'self.childNodes.clear')]
-    slice_del = [n for n in M.walk_no_nested(fn.node) if isinstance(n, (ast.Delete, ast.Assign)) and 'self.childNodes[:]' in text(n)]
-    chk.verdict(R, 'normalize empties the child list in place', not rebinds and bool(pops or slice_del),
-                "normalize must empty the existing list object (it may be the fragment held in attributes['self']); rebinding it "
-                'makes the two views diverge', chk.where(fn))
-
-
-def r65(chk, m):
-    R = chk.rule('R6.5', 'NamedNodeMap.__setitem__ re-parents before storing; _resetPosition assigns parent and owner for node '
-                 'values and recurses into fragments, lists and dictionaries', 3)
-    NM = m.cls(DOM, 'NamedNodeMap')
-    fn = m.find_method(NM, '__setitem__')
-    chk.analysed(fn)
-    calls = [(c.lineno, M.call_name(c)) for c in M.calls_in(fn.node)]
-    rp = [l for l, n in calls if n == 'self._resetPosition']
-    st = [l for l, n in calls if n == 'dict.__setitem__']
-    chk.verdict(R, 'NamedNodeMap.__setitem__', bool(rp) and bool(st) and min(rp) < min(st),
-                '__setitem__ must call _resetPosition(value) before dict.__setitem__: %s' % calls, chk.where(fn))
-    fn = m.find_method(NM, '_resetPosition')
-    chk.analysed(fn)
-    src = text(fn.node)
-    assigns = [(text(t), text(n.value)) for n in M.walk_no_nested(fn.node) if isinstance(n, ast.Assign) for t in n.targets]
-    ok = ('value.parentNode', 'parent') in assigns and ('value.ownerDocument', 'self.ownerDocument') in assigns
-    chk.verdict(R, '_resetPosition assigns parent and owner', ok, '_resetPosition assigns %s' % assigns, chk.where(fn))
-    rec = [text(c) for c in M.calls_in(fn.node) if M.call_name(c) == 'self._resetPosition']
-    ok = len(rec) >= 3 and 'DOCUMENT_FRAGMENT_NODE' in src and 'isinstance(value, list)' in src and 'isinstance(value, dict)' in src
-    chk.verdict(R, '_resetPosition recurses into fragments, lists, dictionaries', ok,
-                '_resetPosition recursion: %s' % rec, chk.where(fn))
-    up = m.find_method(NM, 'update')
-    chk.analysed(up)
-    ok = any(isinstance(n, ast.Assign) and text(n.targets[0]) == 'self[key]' for n in M.walk_no_nested(up.node))
-    chk.verdict(R, 'NamedNodeMap.update stores through __setitem__', ok, 'update must store with self[key] = value (re-parenting)', chk.where(up))
-
-
-def r67(chk, m):
-    R = chk.rule('R6.7', 'derived views locate a node among its siblings by identity (`is`), never by equality/index(): '
-                 'equal-but-distinct nodes (two identical text nodes) are different children', 2)
+    from . import domheap as D
+    R = chk.rule('R6.3', 'derived views on the heap: nextSibling / previousSibling locate the node among equal-but-distinct siblings '
+                 'by identity; text concatenation helpers route through append', 4)
     mod = m.module(DOM)
-    for name in ('_previousSibling', '_nextSibling'):
+    for name, which, want in (('_nextSibling', 't2', 'c'), ('_nextSibling', 't1', 'b'), ('_previousSibling', 't2', 'b'), ('_previousSibling', 'c', 't2'),
+                              ('_nextSibling', 'c', 'None'), ('_previousSibling', 't1', 'None')):
         fn = mod.functions.get(name)
         need(fn is not None, '%s not found' % name)
         chk.analysed(fn)
-        cmp_ = [n for n in M.walk_no_nested(fn.node) if isinstance(n, ast.Compare) and 'self' in [text(n.left)] + [text(c) for c in n.comparators]]
-        bad = [text(c) for c in cmp_ if not isinstance(c.ops[0], (ast.Is, ast.IsNot))]
-        idx = [text(c) for c in M.calls_in(fn.node) if isinstance(c.func, ast.Attribute) and c.func.attr in ('index', 'count')]
-        chk.verdict(R, '%s locates self by identity' % name, bool(cmp_) and not bad and not idx,
-                    '%s finds its position with %s: an earlier sibling that compares equal is mistaken for the node' % (name, bad + idx or 'no identity test'),
-                    chk.where(fn))
+        d = D.Dom(m)
+        t1, t2 = d.text('t1', 'same'), d.text('t2', 'same')
+        b, c = d.elem('b'), d.elem('c')
+        P = d.elem('P', [t1, b, t2, c])
+        for t in (t1, t2):
+            t.attrs['parentNode'] = P
+        nodes = dict(t1=t1, t2=t2, b=b, c=c)
+        outs = D.run(m, fn, {'self': nodes[which]})
+        got = {(k2, D.label_of(v) if v is not None else 'None') for k2, s2, v in outs}
+        chk.decide(R, '%s of %s among [t1, b, t2, c] (t1 == t2)' % (name.strip('_'), which), got, {('return', want)},
+                   '%s(%s) with children [t1, b, t2, c] where t1 and t2 compare equal gives %s; expected %s (the position must be found by identity)'
+                   % (name, which, sorted(got), want), chk.where(fn))
+
+
+def r64_r66(chk, m):
+    from . import domheap as D
+    R = chk.rule('R6.4', 'cloneNode(deep) and normalize on the heap: a deep clone has clones of the children (no node shared with the '
+                 'original, which is left untouched) chained to the clone; normalize merges adjacent text nodes, keeps the other '
+                 'children in order with correct links, also inside fragments held in attributes, and keeps the list object', 5)
+    Node = m.cls(DOM, 'Node')
+    fn = m.find_method(Node, 'cloneNode')
+    chk.analysed(fn)
+    d = D.Dom(m)
+    a, b = d.elem('a'), d.elem('b', [d.elem('b1')])
+    P = d.elem('P', [a, b], attributes=None)
+    outs = D.run(m, fn, {'self': P, 'deep': True, '__P': P})
+    got = set()
+    for k2, s2, v in outs:
+        P2 = s2.env['__P']
+        orig = tuple(D.label_of(c) for c in D.children(P2))
+        if isinstance(v, A.Obj) and D.children(v) is not None:
+            kids = D.children(v)
+            shared = [D.label_of(c) for c in kids if any(c is o for o in D.children(P2))]
+            deep2 = [len(D.children(c) or []) for c in kids]
+            got.add((k2, orig, len(kids), tuple(shared), tuple(D.link_problems(v)), tuple(deep2), tuple(D.link_problems(P2))))
+        else:
+            got.add((k2, orig, 'TOP'))
+    want = ('return', ('a', 'b'), 2, (), (), (0, 1), ())
+    chk.decide(R, 'cloneNode(deep) clones the children', {repr(g) for g in got}, {repr(want)},
+               'P.cloneNode(True) with children [a, b[b1]] gives (outcome, original children, clone children, shared nodes, link problems of the clone, '
+               'grandchildren, link problems of the original) = %s; expected %s' % (sorted(got, key=repr), want), chk.where(fn))
+    R6 = chk.rule('R6.6', 'deep clones do not share attribute nodes: a node or fragment stored in the attribute map of the original is '
+                  'cloned for the clone, and the original keeps its own', 1)
+    d = D.Dom(m)
+    tnode = d.elem('title')
+    frag = d.frag('F', [d.elem('f1')])
+    E = d.elem('E', [], attributes={'title': tnode, 'toc': frag, 'n': 3})
+    tnode.attrs['parentNode'] = E
+    outs = D.run(m, fn, {'self': E, 'deep': True, '__P': E}, cls=Node)
+    got = set()
+    for k2, s2, v in outs:
+        E2 = s2.env['__P']
+        oa = E2.attrs.get('attributes')
+        ca = v.attrs.get('attributes') if isinstance(v, A.Obj) else None
+        if not isinstance(ca, dict) or not isinstance(oa, dict):
+            got.add((k2, 'TOP'))
+            continue
+        got.add((k2, tuple(sorted(ca)), ca.get('title') is oa.get('title'), ca.get('toc') is oa.get('toc'), ca.get('n'),
+                 oa['title'].attrs.get('parentNode') is E2))
+    want = ('return', ('n', 'title', 'toc'), False, False, 3, True)
+    chk.decide(R6, 'cloneNode(deep) clones node-valued attributes', {repr(g) for g in got}, {repr(want)},
+               'deep clone of an element with attributes {title: node, toc: fragment, n: 3}: (outcome, keys, title shared, toc shared, n, original title '
+               'still parented by the original) = %s; expected %s' % (sorted(got, key=repr), want), chk.where(fn))
+    # normalize
+    fn = m.find_method(Node, 'normalize')
+    chk.analysed(fn)
+
+    def norm_case(children_spec, via_attribute=False):
+        d = D.Dom(m)
+        kids = [d.text(l, v) if v is not None else d.elem(l) for l, v in children_spec]
+        if via_attribute:
+            F = d.frag('F', kids)
+            for k in kids:
+                k.attrs['parentNode'] = F
+            E = d.elem('E', None, attributes={'title': F}, childlist=False)
+            E.attrs['nonNormalizedAttrs'] = []
+            F.attrs['parentNode'] = E
+            target = F
+        else:
+            E = d.elem('E', kids)
+            for k in kids:
+                k.attrs['parentNode'] = E
+            target = E
+        lst0 = D.children(target)
+        outs = D.run(m, fn, {'self': E, 'charsubs': None, '__T': target, '__L': lst0}, max_iter=10)
+        got = set()
+        for k2, s2, v in outs:
+            T = s2.env['__T']
+            lst = D.children(T)
+            if lst is None:
+                got.add((k2, 'TOP'))
+                continue
+            desc = tuple(('text', str(c)) if isinstance(c, A.TextObj) else D.label_of(c) for c in lst)
+            probs = tuple(p for p in D.link_problems(T, expect_parent=not via_attribute))
+            got.add((k2, desc, probs, lst is s2.env['__L']))
+        return got
+    for label, spec, via, want in (
+            ('adjacent text nodes are merged', [('t1', 'ab'), ('t2', 'cd'), ('e', None), ('t3', 'x')], False, (('text', 'abcd'), 'e', ('text', 'x'))),
+            ('text at the end is flushed', [('e', None), ('t1', 'a'), ('t2', 'b')], False, ('e', ('text', 'ab'))),
+            ('elements keep their order', [('e1', None), ('e2', None)], False, ('e1', 'e2')),
+            ('a fragment held in an attribute of an element without children is normalized', [('t1', 'ab'), ('t2', 'cd')], True, (('text', 'abcd'),))):
+        got = norm_case(spec, via)
+        w = ('return', want, (), True)
+        chk.decide(R, 'normalize: %s' % label, {repr(g) for g in got}, {repr(w)},
+                   'normalize on %s gives (outcome, children, link problems, same list object) = %s; expected %s'
+                   % ([v if v is not None else l for l, v in spec], sorted(got, key=repr), w), chk.where(fn))
+
+
+def r65(chk, m):
+    from . import domheap as D
+    R = chk.rule('R6.5', 'attribute maps on the heap: storing a value with map[name] = value or map.update() re-parents it - a node gets '
+                 'the element as parent and its document as owner, the items of a fragment get the fragment as parent, nodes inside '
+                 'lists and dictionaries are reached as well', 4)
+    NM = m.cls(DOM, 'NamedNodeMap')
+    fn = m.find_method(NM, '__setitem__')
+    up = m.find_method(NM, 'update')
+    need(fn is not None and up is not None, 'NamedNodeMap.__setitem__/update not found')
+    chk.analysed(fn)
+    chk.analysed(up)
+
+    class NH(D.DomHooks):
+        def call(self, interp, node, fname, args, kwargs, state):
+            if fname == 'dict.__setitem__' and len(args) == 3 and isinstance(args[0], A.Obj):
+                args[0].attrs.setdefault('__store', {})[args[1]] = args[2]
+                return A.NONE
+            if fname == 'isinstance' and len(args) == 2 and text(node.args[1]) in ('list', 'dict'):
+                return isinstance(args[0], list if text(node.args[1]) == 'list' else dict)
+            return D.DomHooks.call(self, interp, node, fname, args, kwargs, state)
+
+    def run(f, value_of, extra):
+        d = D.Dom(m)
+        owner = d.elem('E')
+        themap = A.Obj('map', {'parentNode': owner, 'ownerDocument': d.doc, '__store': {}}, cls=NM)
+        vals = value_of(d)
+        env = {'self': themap, '__E': owner, '__vals': vals}
+        env.update(extra(vals))
+        h = NH(m, NM)
+        it = A.Interp(model=m, scope=f, hooks=h, max_iter=8, exc_edges=False, inline=10, heap=True, precise_exc=True)
+        outs = it.run_function(f, env=env)
+        need(not it.imprecise, 'NamedNodeMap: %s' % it.imprecise[:2])
+        res = set()
+        for k2, s2, v in outs:
+            E2, vs, mp = s2.env['__E'], s2.env['__vals'], s2.env['self']
+            probs = []
+            for label, node, want_parent in vs['expect'](vs, E2):
+                if node.attrs.get('parentNode') is not want_parent:
+                    probs.append('%s.parentNode is %s' % (label, D.label_of(node.attrs.get('parentNode'))))
+                if node.attrs.get('ownerDocument') is not mp.attrs.get('ownerDocument'):
+                    probs.append('%s.ownerDocument not set' % label)
+            res.add((k2, tuple(sorted(mp.attrs.get('__store', {}))), tuple(probs)))
+        return res
+
+    def node_val(d):
+        n = d.elem('n')
+        n.attrs['ownerDocument'] = None
+        return {'v': n, 'expect': lambda vs, E2: [('n', vs['v'], E2)]}
+
+    def frag_val(d):
+        f1 = d.elem('f1')
+        f1.attrs['ownerDocument'] = None
+        F = d.frag('F', [f1])
+        return {'v': F, 'f1': f1, 'expect': lambda vs, E2: [('f1', vs['f1'], vs['v'])]}
+
+    def list_val(d):
+        a, b = d.elem('a'), d.elem('b')
+        a.attrs['ownerDocument'] = b.attrs['ownerDocument'] = None
+        return {'v': [a, {'k': b}], 'a': a, 'b': b, 'expect': lambda vs, E2: [('a', vs['a'], E2), ('b', vs['b'], E2)]}
+    for label, mk in (('a node', node_val), ('a fragment', frag_val), ('a list holding a node and a dictionary', list_val)):
+        got = run(fn, mk, lambda vs: {'name': 'title', 'value': vs['v']})
+        chk.decide(R, 'NamedNodeMap.__setitem__: %s' % label, {repr(g) for g in got}, {repr(('return', ('title',), ()))},
+                   'map["title"] = <%s> gives (outcome, stored keys, link problems) = %s; expected the value stored and re-parented'
+                   % (label, sorted(got, key=repr)), chk.where(fn))
+    got = run(up, node_val, lambda vs: {'other': {'title': vs['v']}})
+    chk.decide(R, 'NamedNodeMap.update stores through __setitem__', {repr(g) for g in got}, {repr(('return', ('title',), ()))},
+               'map.update({"title": node}) gives (outcome, stored keys, link problems) = %s; expected the node stored and re-parented'
+               % sorted(got, key=repr), chk.where(up))
